@@ -181,7 +181,9 @@ def run_case(ctx, case):
     if "m0" in layout["genes"] and "m1" in layout["genes"] and (layout["hits"].get("m0") or layout["hits"].get("m1")):
         ctx.count("class:gene-inside-intron-of-a-gene-with-hits")
     for gene in sorted(results):
-        ok, res = ctx.guard("detect-crash", case, rule.detect, gene, feats, results, circular_origin=wrap)
+        # the name handed over is equal to the key of the gene, not the same object (names come from parsed tables)
+        asked = gene[:1] + gene[1:]
+        ok, res = ctx.guard("detect-crash", case, rule.detect, asked, feats, results, circular_origin=wrap)
         # the class-wide monitor has evaluated the oracle on this call
     # read-only use between evaluations (the pipeline reads the profiles of every rule to validate and to collect the
     # dynamic profiles, and renders rule texts for the outputs): the profiles are those written in the rule, and
